@@ -33,7 +33,11 @@ func (reg *ResourceRegistry) ScanStorage(root string) error {
 		if err != nil {
 			return err
 		}
-		if !strings.HasPrefix(root, reg.storageDir.Path) {
+		// Compare including the separator, so that sibling directories that only
+		// share the storage path as a name prefix are not accepted.
+		separator := string(filepath.Separator)
+		if root != reg.storageDir.Path &&
+			!strings.HasPrefix(root, strings.TrimSuffix(reg.storageDir.Path, separator)+separator) {
 			return errors.New("supplied scan root path not within storage")
 		}
 	}
